@@ -236,8 +236,12 @@ def build(cs, n):
         if asp in ("value", "mutable", "elem-var"): final = [f"{W}({A}, {elem(k, e)})"]
         elif cross: final = [f"{W}({A}, {s.lit(k2, e)})"]
         elif asp == "fold":
+            # nested calls for short sequences, a chain of definitions otherwise (the parser's time triples with every level of call nesting)
             t = A
-            for i in b: t = f"{W}({t}, {s.lit(k, i)})"
+            for j, i in enumerate(b):
+                t = f"{W}({t}, {s.lit(k, i)})"
+                if j + 1 < len(b) and (len(b) > 3 or n % 2):
+                    s.add(f"C{j + 1} := {t}", ('setup',)); t = f"C{j + 1}"
             final = [t]
         else:
             first = f"{W}({A}, {s.lit(k, e)})"
